@@ -739,7 +739,7 @@ VARIANTS = [
     Variant("sync-cachehit-wrong-span", SS, replace_once("dispatcher.emit(build_node_end_event(run_id, node_span_id, run_span_id, node, graph, duration_ms=0.0, cached=True))", "dispatcher.emit(build_node_end_event(run_id, run_span_id, run_span_id, node, graph, duration_ms=0.0, cached=True))"), {"C12.R1"}),
     Variant("sync-cache-hit-before-start", SS, replace_once("                dispatcher.emit(start_evt)\n                dispatcher.emit(build_cache_hit_event(run_id, node_span_id, run_span_id, node, graph, cache_key))", "                dispatcher.emit(build_cache_hit_event(run_id, node_span_id, run_span_id, node, graph, cache_key))\n                dispatcher.emit(start_evt)"), {"C12.R1"}),
     Variant("run-filter-after-end", TS, sub_once(r"(            output_values = filter_outputs\(state, graph, select, on_missing\)\n            result = RunResult\(\n                values=output_values,\n                status=RunStatus.COMPLETED,\n                run_id=run_id,\n            \)\n)(            self\._emit_run_end_sync\(\n                dispatcher,\n                run_id,\n                run_span_id,\n                graph,\n                start_time,\n                _parent_span_id,\n            \)\n)", r"\2\1"), {"C12.R2"}),
-    Variant("run-end-missing-on-continue", TA, sub_once(r"(        except Exception as e:\n            error = e\n            partial_state = getattr\(e, \"_partial_state\", None\)\n            if isinstance\(e, ExecutionError\):\n                error = e.__cause__ if e.__cause__ is not None else e\n                partial_state = e.partial_state\n\n)(            await self\._emit_run_end_async\(.*?error=error,\n            \)\n\n)(            if error_handling == \"raise\":\n                raise error from None\n)", r"\1\3\2"), {"C12.R2"}),
+    Variant("run-end-missing-on-continue", TA, sub_once(r"(        except Exception as e:\n            error = e\n            partial_state = getattr\(e, \"_partial_state\", None\)\n            if isinstance\(e, ExecutionError\):\n                error = e.__cause__ if e.__cause__ is not None else e\n                partial_state = e.partial_state\n\n)(            await self\._emit_run_end_async\(.*?error=error,\n            \)\n\n)(            if error_handling == \"raise\":\n                raise error from error\.__cause__\n)", r"\1\3\2"), {"C12.R2"}),
     Variant("map-end-no-error", TS, sub_once(r"(map_run_id,\n                map_span_id,\n                graph,\n                start_time,\n                _parent_span_id,\n)                error=e,\n", r"\1"), {"C12.R2"}),
     Variant("shutdown-always", TS, replace_once("            if _parent_span_id is None and dispatcher.active:\n                self._shutdown_dispatcher_sync(dispatcher)\n\n    def map(", "            if dispatcher.active:\n                self._shutdown_dispatcher_sync(dispatcher)\n\n    def map("), {"C12.R3"}),
     Variant("nested-run-no-parent", "src/hypergraph/runners/sync/executors/graph_node.py", replace_once("            event_processors=event_processors,\n            _parent_span_id=parent_span_id,\n        )\n        return node.map_outputs_from_original(result.values)", "            event_processors=event_processors,\n        )\n        return node.map_outputs_from_original(result.values)"), {"C12.R3"}),
